@@ -74,6 +74,50 @@ def run(ctx):
         ok_rows = any("[[i,j,k," in c and "linalg.norm(tmp)" in c for c in conc)
         ctx.check(ok_rows and len(rng) == 3 and len(set(rng)) == 1, "C18:vectors:%s.enumeration" % short,
                   "candidates are not enumerated as rows [i, j, k, |A.(i,j,k)|] over one integer range in each index (%s)" % rng, where)
+        # coverage of the promised search range |u|,|v|,|w| <= 2 with the default uvw: every triple must reach the append
+        loops = [n_ for n_ in ast.walk(fn) if isinstance(n_, ast.For) and "arange" in core.unparse(n_.iter)]
+        inner = [l_ for l_ in loops if not any(isinstance(x_, ast.For) for x_ in ast.walk(l_) if x_ is not l_)]
+        uvw_name = fn.args.args[1].arg if len(fn.args.args) > 1 else None
+        uvw_def = ast.literal_eval(fn.args.defaults[0]) if fn.args.defaults else None
+        dropped = []
+        cover_ok = False
+        if len(loops) == 3 and len(inner) == 1 and uvw_def is not None:
+            def bounds(it):
+                a_ = it.args
+                env_ = {uvw_name: Rat.const(uvw_def)}
+                vals = [scalar(Evaluator(mod, inline=set()).eval(x_, env_)).const_value() for x_ in a_]
+                return range(int(vals[0]), int(vals[1])) if len(vals) == 2 else range(int(vals[0]))
+            try:
+                rngs = {l_.target.id: bounds(l_.iter) for l_ in loops}
+            except Exception:
+                raise AnalysisError("%s.reduce_cell: enumeration ranges are not arange(<int expr of uvw>)" % short)
+            cover_ok = all(set(range(-2, 3)) <= set(r_) for r_ in rngs.values())
+            names = [l_.target.id for l_ in loops]
+
+            def reaches_append(stmts, env_):
+                for st_ in stmts:
+                    if isinstance(st_, ast.If):
+                        t_ = Evaluator(mod, inline=set()).eval(st_.test, env_)
+                        if not isinstance(t_, bool):
+                            raise AnalysisError("%s.reduce_cell: enumeration filter `%s` does not fold on integers" % (short, core.unparse(st_.test)))
+                        r_ = reaches_append(st_.body if t_ else st_.orelse, env_)
+                        if r_ is not None:
+                            return r_
+                    elif isinstance(st_, ast.Continue):
+                        return False
+                    elif isinstance(st_, ast.Assign) and "concatenate" in core.unparse(st_.value) and st_.targets[0].id == "res":
+                        return True
+                return None
+            import itertools
+            for trip in itertools.product(range(-2, 3), repeat=3):
+                env_ = {nm_: Rat.const(v_) for nm_, v_ in zip(names, trip)}
+                env_[uvw_name] = Rat.const(uvw_def)
+                if reaches_append(inner[0].body, env_) is not True:
+                    dropped.append(trip)
+        ctx.check(cover_ok and not dropped, "C18:vectors:%s.coverage" % short,
+                  "the enumeration does not visit every index triple with |u|,|v|,|w| <= 2 for the default search range: "
+                  "dropped %d of 125, e.g. %s" % (len(dropped), dropped[:3]), where,
+                  sample={"triples_checked": 125, "dropped": len(dropped)})
         srt = [s for s in src.values() if "argsort(res[:,3])" in s and s.startswith("res=res[")]
         ctx.check(len(srt) == 1, "C18:vectors:%s.sorted" % short, "the candidate list is not sorted by its length column", where)
         # stores into the reduced matrix
